@@ -32,6 +32,17 @@ CHECKS = [
           "refuted by a computed witness. Tie: transform(None/X_train, NumInt/InnPro), inverse_transform vs the exact Q model fed with the "
           "implementation's mean, weight, eigenfunctions, on 1-D and 2-D data; open finding F2 recognised by exact agreement with the defect model.",
   "note": STD_NOTE + " PACE scores: well-formedness only. Projection property outside the span is not proved (C03_roundtrip_is_projection_partial)."},
+ {"id": "C04",
+  "text": "Theorems: eigenvectors of the NON-symmetric product G Q (G block-diagonal Gram of the univariate bases, Q score covariance, both "
+          "acting symmetrically) for distinct eigenvalues are Q-orthogonal; hence the multivariate eigenfunctions a_k = (nf_k/sqrt(nu_k)) Q c_k "
+          "are mutually orthogonal and of unit norm (nf_k^2 c_k^T Q c_k = 1) for the product-space inner product a^T G b, which is the SUM OVER "
+          "COMPONENTS of a_p^T G_p b_p for blocks of DIFFERENT sizes (block_split_sound, split_sizes_concat); the sample covariance of score "
+          "columns S c_j, S c_k is c_j^T Q c_k (= nu_k delta_jk for orthonormal univariate bases: PACE scores uncorrelated with variance nu); "
+          "inverse_transform is affine per component. Tie: the implementation's univariate scores, Gram matrices, eigenpairs, coefficients, "
+          "PACE scores and reconstructions are checked exactly in Q against these relations for P=1..3 components on different grids with UFPCA "
+          "and P-spline expansions; metamorphic check under every permutation of the components; irregular components for well-formedness. "
+          "Open finding F16 (normalisation with the uncentred second moment) recognised through a corrected-coefficients certificate.",
+  "note": STD_NOTE + " Partial: permutation equivariance is a metamorphic monitor, not a theorem (C04_perm_equivariance_partial)."},
  {"id": "C05",
   "text": "Theorems about the explicit (tensor-product) penalised weighted least-squares normal equations A c = B^T(w.Bc) + sum lambda D^T D c = "
           "B^T(w.y), for ANY design rows, weights >= 0, penalties >= 0 (hence any dimension): quadratic form c.Ac = sum w_k (b_k.c)^2 + sum "
